@@ -10,5 +10,6 @@ for d in $dirs; do
   git -C /repo apply /verif/$d/patch.diff
   out=$(./check $prop 2>&1 | grep -E "^VIOLATION|quick:" | cut -c1-200 | tr '\n' ' ')
   git -C /repo checkout -- .
-  echo "$id: $out"
+  neutral=$(python3 -c "import json,sys; print('neutralised (not counted) ' if json.load(open('/verif/$d/meta.json')).get('neutralised') else '')" 2>/dev/null)
+  echo "$id: $neutral$out"
 done
